@@ -132,4 +132,23 @@ def NsMgr.validName (parent : Option NsMgr) (m : NsMgr) (x : NameArg) : NsMgr ×
   | .qn q => let (m', q') := m.validQ q; (m', some q')
   | .str s => (m, m.resolveStr parent s)
 
+/-! ### specification-level predicates used by C03 (also evaluated by the driver) -/
+
+/-- the manager can print `q` and read it back: its namespace is bound under its prefix
+    (non-empty prefix) or is the default namespace (empty prefix) -/
+def NsMgr.Owns (m : NsMgr) (q : QName) : Prop :=
+  (q.ns.pfx ≠ "" ∧ m.tbl.get? q.ns.pfx = some q.ns) ∨ (q.ns.pfx = "" ∧ m.dflt = some q.ns)
+
+instance (m : NsMgr) (q : QName) : Decidable (m.Owns q) := by
+  unfold NsMgr.Owns; exact inferInstance
+
+/-- print form is well-formed for re-reading: no ':' in the prefix, prefix is not "_", and a bare
+    local name has no ':' and is non-empty (consequences of the PROV-N `PN_PREFIX`/`PN_LOCAL` shapes) -/
+def WfName (q : QName) : Prop :=
+  ':' ∉ q.ns.pfx.toList ∧ q.ns.pfx ≠ "_" ∧
+  (q.ns.pfx = "" → ':' ∉ q.loc.toList ∧ q.loc ≠ "" ∧ sStartsWith q.loc "_:" = false)
+
+instance (q : QName) : Decidable (WfName q) := by
+  unfold WfName; exact inferInstance
+
 end Prov
